@@ -133,3 +133,57 @@ package types
 
 //@ func (BlockHeader).ID
 //@   abstract
+
+// Cryptographic and hash-derived functions: uninterpreted functions of their arguments (T9).
+//@ func (PublicKey).VerifyHash
+//@   abstract
+//@ func (SpendPolicy).Address
+//@   abstract
+//@ func (SpendPolicy).Verify
+//@   abstract
+//@ func HashBytes
+//@   abstract
+//@ func (*Transaction).ID
+//@   abstract
+//@ func (*Transaction).FullHash
+//@   abstract
+//@ func (*Transaction).SiacoinOutputID
+//@   abstract
+//@ func (*Transaction).SiafundOutputID
+//@   abstract
+//@ func (*Transaction).SiafundClaimOutputID
+//@   abstract
+//@ func (*Transaction).FileContractID
+//@   abstract
+//@ func (*V2Transaction).ID
+//@   abstract
+//@ func (*V2Transaction).FullHash
+//@   abstract
+//@ func (*V2Transaction).SiacoinOutputID
+//@   abstract
+//@ func (*V2Transaction).SiafundOutputID
+//@   abstract
+//@ func (*V2Transaction).V2FileContractID
+//@   abstract
+//@ func (*V2Transaction).AttestationID
+//@   abstract
+//@ func (BlockID).MinerOutputID
+//@   abstract
+//@ func (BlockID).FoundationOutputID
+//@   abstract
+//@ func (SiafundOutputID).ClaimOutputID
+//@   abstract
+//@ func (SiafundOutputID).V2ClaimOutputID
+//@   abstract
+//@ func (FileContractID).ValidOutputID
+//@   abstract
+//@ func (FileContractID).MissedOutputID
+//@   abstract
+//@ func (FileContractID).V2RenterOutputID
+//@   abstract
+//@ func (FileContractID).V2HostOutputID
+//@   abstract
+//@ func (FileContractID).V2RenewalID
+//@   abstract
+//@ func (*Block).ID
+//@   abstract
